@@ -56,7 +56,7 @@ theorem callOp_pagesPcs {c : Cfg} {s s' : State} {t : Tid} {op : Op} (hm : c.mod
 
 theorem reach_pagesPcs {c : Cfg} {s : State} (hm : c.mode = Mode.pages) (h : Reach c s) : PagesPcs s := by
   refine Reachable.invariant PagesPcs ?_ ?_ s h
-  · intro s hs; subst hs; intro t; rfl
+  · intro s hs; obtain ⟨r0, rfl⟩ := hs; intro t; rfl
   · intro s s' hi hst
     cases hst with
     | thread t tok spur l ht hs =>
@@ -471,21 +471,21 @@ theorem reach_cntInv {c : Cfg} {s : State} (hm : c.mode = Mode.pages) (hcnt : c.
   have : (IdleEmpty s ∧ PagesPcs s ∧ (∀ t, LenOK c (s.th t))) ∧ CntInv c s := by
     refine Reachable.invariant (fun s => (IdleEmpty s ∧ PagesPcs s ∧ (∀ t, LenOK c (s.th t))) ∧ CntInv c s) ?_ ?_ s h
     · intro s hs
-      have hr : Reach c s := by subst hs; exact Reachable.base rfl
+      have hr : Reach c s := Reachable.base hs
       refine ⟨⟨reach_idleEmpty hr, reach_pagesPcs hm hr, reach_len hcap hr⟩, ?_⟩
-      subst hs
+      obtain ⟨r0, rfl⟩ := hs
       unfold CntInv adjSum
-      have : ∀ l : List Nat, (l.map (fun t => adj c ((State.init c).th t))).sum = 0 := by
+      have : ∀ l : List Nat, (l.map (fun t => adj c ((State.initAt c r0).th t))).sum = 0 := by
         intro l; induction l with
         | nil => rfl
-        | cons x xs ih => simpa [adj, State.init] using ih
+        | cons x xs ih => simpa [adj, State.initAt] using ih
       rw [this]
-      have h2 : (State.init c).bufs.flatten.length = 0 := by
-        simp only [State.init]
+      have h2 : (State.initAt c r0).bufs.flatten.length = 0 := by
+        simp only [State.initAt]
         induction c.nthreads with
         | zero => rfl
         | succ n ih => simp only [List.replicate_succ, List.flatten_cons, List.length_append, List.length_nil, ih]
-      rw [h2]; simp [State.init]
+      rw [h2]; simp [State.initAt]
     · intro s s' ⟨⟨hie, hpp, hlen⟩, hi⟩ hst
       have hr' : IdleEmpty s' := step_idleEmpty hst hie
       refine ⟨⟨hr', ?_, ?_⟩, ?_⟩
